@@ -29,8 +29,8 @@ type vfPeer struct {
 	consumed int
 }
 
-func (p *vfPeer) ID() types.PeerID                       { return types.PeerID("peer") }
-func (p *vfPeer) Name() string                           { return "peer" }
+func (p *vfPeer) ID() types.PeerID                                        { return types.PeerID("peer") }
+func (p *vfPeer) Name() string                                            { return "peer" }
 func (p *vfPeer) ConsumeRequest(msgID p2pcommon.MsgID) p2pcommon.MsgOrder { p.consumed++; return nil }
 
 // vfBlockSize replaces (*types.Block).Size (protobuf size computation) by an arbitrary non-negative number per call.
@@ -80,6 +80,7 @@ func vfC18Digest(b *types.Block) []byte { return (&types.Block{Header: b.Header}
 //   - a block is stored at offset i only if block.Hash == requested[i] (and only in order);
 //   - the syncer is told "success" only with all n blocks, each matching its requested id;
 //   - too many / unexpected / oversized / too few blocks, a non-OK status or an empty list cancel with the matching error.
+//
 // C18.e (receiver side): stored => H(header) == requested[i]; fails because only the Hash FIELD is compared (F8).
 func VF_C18_d() {
 	vfC18Init()
